@@ -419,9 +419,13 @@ Snapshot snapshot(const Pool &pool, bool deep) {
                   sup.getStartIndex() < sup.getEndIndex() &&
                   sp.getCoefficients().size() == sup.numberOfIntervals() &&
                   sup.size() >= 2) {
+                // front, then the midpoint of the LAST interval: whatever the
+                // library remembers about "the previous evaluation" is left
+                // pointing at the far end when the next operation starts
                 const T &x0 = sup.front();
                 h = hmix(h, sp(x0).bits());
-                T xm = T::make((sup[0].raw() + sup[1].raw()) / Val(2));
+                size_t last = sup.size() - 1;
+                T xm = T::make((sup[last - 1].raw() + sup[last].raw()) / Val(2));
                 h = hmix(h, sp(xm).bits());
               }
             } catch (const std::exception &) {
